@@ -1,5 +1,5 @@
 (** Crash-atomicity / failure-atomicity / reclamation theorems about [Model/Fs.v]. *)
-From Coq Require Import List NArith Bool Lia.
+From Coq Require Import List NArith Arith Bool Lia.
 From LsmV Require Import Model.Fs.
 Import ListNotations.
 Open Scope N_scope.
@@ -77,3 +77,303 @@ Definition is_crash_image (s : fsstate) (img : image) : Prop :=
   (forall d, ddirs s d = true -> idirs img d = true) /\
   (forall d, idirs img d = true -> ddirs s d = true \/ vdirs s d = true) /\
   (forall f, entry_ok s f (iget img f)).
+
+(** * Contents *)
+Lemma prefixes_spec l p : In p (prefixes l) <-> exists q, l = p ++ q.
+Proof.
+  revert p; induction l as [|x l IH]; intros p; simpl.
+  - split.
+    + intros [<-|[]]. now exists [].
+    + intros [q E]. destruct p; [now left | discriminate].
+  - split.
+    + intros [<-|H]; [now exists (x :: l)|].
+      apply in_map_iff in H as [p' [<- H]]. apply IH in H as [q ->]. now exists q.
+    + intros [q E]. destruct p as [|y p]; [now left|]. right.
+      simpl in E. inversion E; subst. apply in_map_iff. exists p. split; [reflexivity|].
+      apply IH. now exists q.
+Qed.
+
+Lemma is_prefixb_refl d : is_prefixb d d = true.
+Proof. induction d; simpl; [reflexivity|]. now rewrite N.eqb_refl. Qed.
+
+Lemma crash_contents_durable d v : In (d, false) (crash_contents d v).
+Proof. now left. Qed.
+
+Lemma crash_contents_synced d c : In c (crash_contents d d) -> c = (d, false).
+Proof.
+  unfold crash_contents. intros [<-|H]; [reflexivity|].
+  apply in_flat_map in H as [p [Hp Hc]].
+  apply filter_In in Hp as [Hp Hl]. rewrite is_prefixb_refl in Hl.
+  apply Nat.leb_le in Hl. apply prefixes_spec in Hp as [q E].
+  assert (q = []) as ->.
+  { apply (f_equal (@length N)) in E. rewrite app_length in E.
+    destruct q; [reflexivity|simpl in E; lia]. }
+  rewrite app_nil_r in E. subst p.
+  rewrite Nat.ltb_irrefl in Hc. destruct Hc as [<-|[]]. reflexivity.
+Qed.
+
+(** * Well-formedness, stability, the invariant *)
+Definition wf (s : fsstate) : Prop :=
+  ddirs s Root = true /\
+  forall f i, vns s f = Some i \/ dns s f = Some i -> i < next_ino s.
+
+Definition stable (o : oracle) (s : fsstate) (f : fname) : Prop := stableb o s f = true.
+
+Lemma stable_spec o s f :
+  stable o s f <->
+  exists i e, dns s f = Some i /\ vns s f = Some i /\ dcont s i = e /\ vcont s i = e /\
+              expected o f = Some e /\ ddirs s (dir_of f) = true.
+Proof.
+  unfold stable, stableb. split.
+  - destruct (dns s f) as [i|]; [|discriminate]. destruct (vns s f) as [j|]; [|discriminate].
+    destruct (expected o f) as [e|]; [|rewrite andb_false_r; discriminate].
+    rewrite !andb_true_iff, N.eqb_eq, !list_eqb_eq. intros [[[-> H1] H2] H3].
+    exists j, e. repeat split; congruence.
+  - intros (i & e & -> & -> & H1 & H2 & -> & H3).
+    rewrite N.eqb_refl, H1, H2, list_eqb_refl, H3. reflexivity.
+Qed.
+
+(** what the (durable / volatile) [current] binding [ns] denotes *)
+Definition cur_points (o : oracle) (s : fsstate) (ns : fname -> option N) (ov : option N) : Prop :=
+  match ov with
+  | Some v => exists i t, ns Current = Some i /\ dcont s i = [t] /\ vcont s i = [t] /\
+                          current_points o t = Some v
+  | None => ns Current = None
+  end.
+
+Definition pinned (o : oracle) (s : fsstate) (ov : option N) : Prop :=
+  match ov with
+  | Some v => version_contents o v <> None /\ forall f, In f (pnames o v) -> stable o s f
+  | None => True
+  end.
+
+(** protocol invariant for protocol state [(dv, vv, _)] *)
+Definition inv (o : oracle) (s : fsstate) (ps : pstate) : Prop :=
+  let '(dv, vv, _) := ps in
+  wf s /\ cur_points o s (dns s) dv /\ cur_points o s (vns s) vv /\
+  pinned o s dv /\ pinned o s vv.
+
+(** logical durable state of a consistent disk: [current] durable (= volatile), pointing
+    to a complete durable version whose files are all complete & durable with durable
+    directory entries *)
+Definition disk_ok (o : oracle) (s : fsstate) (ov : option N) : Prop := inv o s (ov, ov, false).
+Definition disk_consistent (o : oracle) (s : fsstate) : Prop := exists v, disk_ok o s (Some v).
+
+(** * What recovery returns on a crash image of a state satisfying the invariant *)
+Definition vsummary (o : oracle) (v : N) : rsummary :=
+  match version_contents o v with
+  | Some vd => SRec v (vd_tables vd) (vd_blobs vd)
+  | None => SFailed
+  end.
+
+Definition osummary (o : oracle) (ov : option N) : rsummary :=
+  match ov with Some v => vsummary o v | None => SFresh end.
+
+Lemma crash_file_stable o s img f :
+  stable o s f -> is_crash_image s img -> file_ok o img f = true.
+Proof.
+  intros Hs (Hd & _ & He). apply stable_spec in Hs as (i & e & H1 & H2 & H3 & H4 & H5 & H6).
+  unfold file_ok, img_file. rewrite (Hd _ H6).
+  specialize (He f). destruct (iget img f) as [c|]; simpl in He.
+  - destruct He as (j & Hj & Hc).
+    assert (j = i) as -> by (destruct Hj; congruence).
+    rewrite H3, H4 in Hc. apply crash_contents_synced in Hc as ->.
+    unfold complete. rewrite H5. simpl. apply list_eqb_refl.
+  - destruct He; congruence.
+Qed.
+
+Lemma recover_pinned o img t r b v vd :
+  img_file img Current = Some (t :: r, b) ->
+  current_points o t = Some v ->
+  version_contents o v = Some vd ->
+  (forall f, In f (pnames o v) -> file_ok o img f = true) ->
+  summary (recover_dir o img) = SRec v (vd_tables vd) (vd_blobs vd).
+Proof.
+  intros Hc Hp Hv Hf. unfold recover_dir. rewrite Hc, Hp.
+  assert (Hpn : pnames o v = VersionFile v :: map TableFile (vd_tables vd) ++ map BlobFile (vd_blobs vd))
+    by (unfold pnames; now rewrite Hv).
+  rewrite (Hf (VersionFile v)) by (rewrite Hpn; now left). simpl negb. cbv iota.
+  rewrite Hv.
+  assert (Ht : forallb (fun id => file_ok o img (TableFile id)) (vd_tables vd) = true).
+  { apply forallb_forall. intros id Hid. apply Hf. rewrite Hpn. right.
+    apply in_or_app. left. now apply in_map. }
+  assert (Hb : forallb (fun id => file_ok o img (BlobFile id)) (vd_blobs vd) = true).
+  { apply forallb_forall. intros id Hid. apply Hf. rewrite Hpn. right.
+    apply in_or_app. right. now apply in_map. }
+  rewrite Ht, Hb. simpl negb. rewrite andb_false_r. cbv iota. simpl summary.
+  destruct (idirs img Blobs) eqn:Eb; [reflexivity|].
+  destruct (vd_blobs vd) as [|id bl] eqn:Ebl; [reflexivity|].
+  exfalso. simpl in Hb. apply andb_true_iff in Hb as [Hb _].
+  unfold file_ok, img_file in Hb. simpl dir_of in Hb. rewrite Eb in Hb. discriminate.
+Qed.
+
+Lemma inv_recover o s ps img :
+  inv o s ps -> is_crash_image s img ->
+  let '(dv, vv, _) := ps in
+  summary (recover_dir o img) = osummary o dv \/ summary (recover_dir o img) = osummary o vv.
+Proof.
+  destruct ps as [[dv vv] pub]. intros (Hwf & Hcd & Hcv & Hpd & Hpv) Himg.
+  pose proof Himg as (Hd & _ & He).
+  assert (Hroot : idirs img Root = true) by (apply Hd; apply Hwf).
+  assert (Hcur : img_file img Current = iget img Current)
+    by (unfold img_file; simpl dir_of; now rewrite Hroot).
+  (* it suffices to treat one binding [ns] that the image chose *)
+  assert (Hgen : forall ov, pinned o s ov ->
+            (match ov with
+             | Some v => exists t, iget img Current = Some ([t], false) /\ current_points o t = Some v
+             | None => iget img Current = None end) ->
+            summary (recover_dir o img) = osummary o ov).
+  { intros [v|] Hp Hi.
+    - destruct Hi as (t & Hi & Ht). destruct Hp as [Hv Hp]. simpl. unfold vsummary.
+      destruct (version_contents o v) as [vd|] eqn:Ev; [|congruence].
+      apply (recover_pinned o img t [] false v vd); [now rewrite Hcur|assumption|assumption|].
+      intros f Hf. eapply crash_file_stable; eauto.
+    - simpl. unfold recover_dir. rewrite Hcur, Hi. reflexivity. }
+  specialize (He Current). destruct (iget img Current) as [c|] eqn:Ec; simpl in He.
+  - destruct He as (i & [Hi|Hi] & Hc).
+    + left. apply Hgen; [assumption|]. destruct dv as [v|]; simpl in Hcd.
+      * destruct Hcd as (i' & t & H1 & H2 & H3 & H4).
+        assert (i' = i) as -> by congruence. rewrite H2, H3 in Hc.
+        apply crash_contents_synced in Hc as ->. eauto.
+      * congruence.
+    + right. apply Hgen; [assumption|]. destruct vv as [v|]; simpl in Hcv.
+      * destruct Hcv as (i' & t & H1 & H2 & H3 & H4).
+        assert (i' = i) as -> by congruence. rewrite H2, H3 in Hc.
+        apply crash_contents_synced in Hc as ->. eauto.
+      * congruence.
+  - destruct He as [Hn|Hn].
+    + left. apply Hgen; [assumption|]. destruct dv as [v|]; simpl in Hcd; [|reflexivity].
+      destruct Hcd as (i' & t & H1 & _). congruence.
+    + right. apply Hgen; [assumption|]. destruct vv as [v|]; simpl in Hcv; [|reflexivity].
+      destruct Hcv as (i' & t & H1 & _). congruence.
+Qed.
+
+(** * Frame lemmas: what an op leaves alone *)
+Lemma wf_apply s op s' : apply s op = Some s' -> wf s -> wf s'.
+Proof.
+  intros Ha [Hr Hb]. destruct op; simpl in Ha.
+  - inversion Ha; subst; clear Ha. split; simpl; auto.
+  - destruct (negb (vdirs s (dir_of f))); [discriminate|].
+    destruct (vns s f) as [i|] eqn:Ev.
+    + destruct excl; [discriminate|]. inversion Ha; subst; clear Ha. split; simpl; auto.
+    + inversion Ha; subst; clear Ha. split; simpl; auto.
+      intros g i [H|H].
+      * unfold upd_name in H. destruct (fname_eqb g f).
+        -- inversion H; subst. lia.
+        -- specialize (Hb g i (or_introl H)). lia.
+      * specialize (Hb g i (or_intror H)). lia.
+  - destruct (vns s f); [|discriminate]. inversion Ha; subst; clear Ha. split; simpl; auto.
+  - destruct (vns s f); [|discriminate]. inversion Ha; subst; clear Ha. split; simpl; auto.
+  - destruct (negb (vdirs s d)); [discriminate|]. inversion Ha; subst; clear Ha. split; simpl.
+    + destruct (dname_eqb d Root); [now rewrite Hr|assumption].
+    + intros g i [H|H]; [eauto|]. destruct (dname_eqb (dir_of g) d); eauto.
+  - destruct (negb (dname_eqb (dir_of src) (dir_of dst))); [discriminate|].
+    destruct (fname_eqb src dst).
+    + destruct (vns s src); [|discriminate]. inversion Ha; subst. now split.
+    + destruct (vns s src) as [i|] eqn:Ev; [|discriminate]. inversion Ha; subst; clear Ha.
+      split; simpl; auto. intros g j [H|H]; [|eauto].
+      unfold upd_name in H. destruct (fname_eqb g dst); [inversion H; subst; eauto|].
+      destruct (fname_eqb g src); [discriminate|eauto].
+  - destruct (vns s f) eqn:Ev; [|discriminate]. inversion Ha; subst; clear Ha.
+    split; simpl; auto. intros g j [H|H]; [|eauto].
+    unfold upd_name in H. destruct (fname_eqb g f); [discriminate|eauto].
+Qed.
+
+Definition untouched (s : fsstate) (f : fname) (op : fsop) : Prop :=
+  forall g, In g (touched op) -> g <> f /\ aliases s f g = false.
+
+Lemma aliases_false s f g j i :
+  aliases s f g = false -> vns s g = Some j -> vns s f = Some i \/ dns s f = Some i -> j <> i.
+Proof.
+  unfold aliases. intros Ha Hg Hf ->. rewrite Hg in Ha.
+  apply orb_false_iff in Ha as [H1 H2].
+  destruct Hf as [Hf|Hf]; rewrite Hf in *; simpl in *; rewrite N.eqb_refl in *; discriminate.
+Qed.
+
+Record keeps (s s' : fsstate) (f : fname) (op : fsop) : Prop := {
+  k_vns : vns s' f = vns s f;
+  k_dns : dns s' f = dns s f \/ (op = FsyncDir (dir_of f) /\ dns s' f = vns s f);
+  k_cont : forall i, vns s f = Some i \/ dns s f = Some i ->
+                     vcont s' i = vcont s i /\ (dcont s i = vcont s i -> dcont s' i = dcont s i);
+  k_dirs : forall d, ddirs s d = true -> ddirs s' d = true
+}.
+
+Lemma apply_keeps s op s' f :
+  apply s op = Some s' -> wf s -> untouched s f op -> keeps s s' f op.
+Proof.
+  intros Ha [_ Hb] Hu. destruct op; simpl in Ha.
+  - inversion Ha; subst; clear Ha. split; simpl; auto.
+  - destruct (Hu f0 (or_introl eq_refl)) as [Hne Hal].
+    destruct (negb (vdirs s (dir_of f0))); [discriminate|].
+    destruct (vns s f0) as [j|] eqn:Ev.
+    + destruct excl; [discriminate|]. inversion Ha; subst; clear Ha. split; simpl; auto.
+      intros i Hi. pose proof (aliases_false _ _ _ _ _ Hal Ev Hi) as Hji.
+      rewrite upd_cont_other by congruence. auto.
+    + inversion Ha; subst; clear Ha. split; simpl; auto.
+      * apply upd_name_other. congruence.
+      * intros i Hi. assert (i < next_ino s) by (eapply Hb; eauto).
+        rewrite !upd_cont_other by lia. auto.
+  - destruct (Hu f0 (or_introl eq_refl)) as [Hne Hal].
+    destruct (vns s f0) as [j|] eqn:Ev; [|discriminate].
+    inversion Ha; subst; clear Ha. split; simpl; auto.
+    intros i Hi. pose proof (aliases_false _ _ _ _ _ Hal Ev Hi) as Hji.
+    rewrite upd_cont_other by congruence. auto.
+  - destruct (vns s f0) as [j|] eqn:Ev; [|discriminate].
+    inversion Ha; subst; clear Ha. split; simpl; auto.
+    intros i Hi. split; [reflexivity|]. intros E. unfold upd_cont.
+    destruct (N.eqb i j) eqn:Eij; [apply N.eqb_eq in Eij; subst; auto|reflexivity].
+  - destruct (negb (vdirs s d)); [discriminate|]. inversion Ha; subst; clear Ha.
+    split; simpl; auto.
+    + destruct (dname_eqb (dir_of f) d) eqn:Ed; [|now left].
+      right. apply dname_eqb_eq in Ed. subst. auto.
+    + intros e He. destruct (dname_eqb d Root); [now rewrite He|assumption].
+  - destruct (Hu src (or_introl eq_refl)) as [Hne1 _].
+    destruct (Hu dst (or_intror (or_introl eq_refl))) as [Hne2 _].
+    destruct (negb (dname_eqb (dir_of src) (dir_of dst))); [discriminate|].
+    destruct (fname_eqb src dst).
+    + destruct (vns s src); [|discriminate]. inversion Ha; subst. split; auto.
+    + destruct (vns s src) as [i|] eqn:Ev; [|discriminate]. inversion Ha; subst; clear Ha.
+      split; simpl; auto.
+      rewrite upd_name_other by congruence. apply upd_name_other. congruence.
+  - destruct (Hu f0 (or_introl eq_refl)) as [Hne _].
+    destruct (vns s f0) eqn:Ev; [|discriminate]. inversion Ha; subst; clear Ha.
+    split; simpl; auto. apply upd_name_other. congruence.
+Qed.
+
+Lemma keeps_stable o s s' f op : keeps s s' f op -> stable o s f -> stable o s' f.
+Proof.
+  intros [Kv Kd Kc Kdir] Hs. apply stable_spec in Hs as (i & e & H1 & H2 & H3 & H4 & H5 & H6).
+  apply stable_spec. exists i, e.
+  destruct (Kc i (or_introl H2)) as [Kc1 Kc2].
+  repeat split.
+  - destruct Kd as [Kd|[_ Kd]]; congruence.
+  - congruence.
+  - rewrite Kc2; congruence.
+  - congruence.
+  - assumption.
+  - auto.
+Qed.
+
+Lemma keeps_cur_vns o s s' op ov :
+  keeps s s' Current op -> cur_points o s (vns s) ov -> cur_points o s' (vns s') ov.
+Proof.
+  intros [Kv Kd Kc Kdir]. destruct ov as [v|]; simpl.
+  - intros (i & t & H1 & H2 & H3 & H4). exists i, t.
+    destruct (Kc i (or_introl H1)) as [Kc1 Kc2].
+    repeat split; try congruence. rewrite Kc2; congruence.
+  - congruence.
+Qed.
+
+Lemma keeps_cur_dns o s s' op ov :
+  keeps s s' Current op -> op <> FsyncDir Root ->
+  cur_points o s (dns s) ov -> cur_points o s' (dns s') ov.
+Proof.
+  intros [Kv Kd Kc Kdir] Hop.
+  assert (Kd' : dns s' Current = dns s Current).
+  { destruct Kd as [Kd|[Kd _]]; [assumption|]. simpl in Kd. contradiction. }
+  destruct ov as [v|]; simpl.
+  - intros (i & t & H1 & H2 & H3 & H4). exists i, t.
+    destruct (Kc i (or_intror H1)) as [Kc1 Kc2].
+    repeat split; try congruence. rewrite Kc2; congruence.
+  - congruence.
+Qed.
